@@ -11,14 +11,18 @@
              lineage l carries lineage l·w + j; so the copies that reach stage S descend from source lineage
              l / (product of the widths of the stages before S), and the leaves of source lineage l are
              l·P … l·P + P − 1 with P the product of all widths.  The sink must see EVERY leaf at least once.
-     faults  `-` or comma separated `<kind>@<stage>.<call>`, kind ∈ he hp pe pp pa (call = number of the handler call
-             (he hp) / publisher call (pe pp pa) of that stage), or `px@<stage>.<k>.<j>`: the publisher refuses the call
+     faults  `-` or comma separated `<kind>@<stage>.<call>`, kind ∈ he hp hc pe pp pa pw (call = number of the handler call
+             (he hp hc) / publisher call (pe pp pa pw) of that stage), or `px@<stage>.<k>.<j>`: the publisher refuses the call
              that contains output #j of the k-th handler invocation of that stage
      events  sc.L            harness is about to call Publish(source topic, lineage L)
              sr.L.ok|err     that call returned
              hs.S.L.I        handler function of stage S entered with a copy of lineage L; I = invocation number
                              (global counter, increasing in log order)
-             ft.S.L.I.K      scripted fault K injected into invocation I
+             dirty.S.L.I     … and the received copy is NOT the message as it was published (every handler edits its copy in
+                             place – payload field replaced, hop counter incremented, mark set – so a redelivery that carries
+                             the edits of the failed attempt shows here)
+             ft.S.L.I.K      scripted fault K injected into invocation I (hc / pw: a handler / publisher error that
+                             satisfies errors.Is(err, context.Canceled) – for the property an error like any other)
              pc.S.L.I        publisher wrapper entered (handler returned its output)
              early.S.L.I     … and found the consumed copy ALREADY settled
              pi.S.L.I.J      output #J is about to be handed to the real GoChannel.Publish (no fault); one event per
@@ -44,6 +48,7 @@ inductive Ev
   | fault (st l inv : Nat) (k : FaultKind)
   | pubCall (st l inv : Nat)
   | early (st l inv : Nat)
+  | dirty (st l inv : Nat)
   | pubInner (st l inv j : Nat)
   | pubAccepted (st l inv j : Nat)
   | pubRet (st l inv : Nat) (r : PubRes)
@@ -59,6 +64,8 @@ def parseKind : String → Option FaultKind
   | "pe" => some .pubErr
   | "pp" => some .pubPanic
   | "pa" => some .pubErrAfterPartial
+  | "hc" => some .handlerErr  -- handler error wrapping context.Canceled: still Nack + redelivery
+  | "pw" => some .pubErr      -- publisher error wrapping context.Canceled: still Nack + redelivery
   | "px" => some .pubErr      -- refusal keyed by output position: for the model a publish error like any other
   | _ => none
 
@@ -73,6 +80,7 @@ def parseEv (tok : String) : Option Ev :=
   | ["hs", s, l, i] => do some (.hStart (← s.toNat?) (← l.toNat?) (← i.toNat?))
   | ["pc", s, l, i] => do some (.pubCall (← s.toNat?) (← l.toNat?) (← i.toNat?))
   | ["early", s, l, i] => do some (.early (← s.toNat?) (← l.toNat?) (← i.toNat?))
+  | ["dirty", s, l, i] => do some (.dirty (← s.toNat?) (← l.toNat?) (← i.toNat?))
   | ["pi", s, l, i, j] => do some (.pubInner (← s.toNat?) (← l.toNat?) (← i.toNat?) (← j.toNat?))
   | ["po", s, l, i, j] => do some (.pubAccepted (← s.toNat?) (← l.toNat?) (← i.toNat?) (← j.toNat?))
   | ["ft", s, l, i, k] => do some (.fault (← s.toNat?) (← l.toNat?) (← i.toNat?) (← parseKind k))
@@ -169,6 +177,8 @@ def monStep (widths : List Nat) (m : MS) : Ev → Except String MS
   | .pubAccepted _ _ inv j => .ok { m with accepted := (inv, j) :: m.accepted }
   -- "A stage gives a message up (Ack) only after the next topic accepted its output" – every output of that invocation
   | .early .. => .error "ack_after_accept(settled-before-publish-returned)"
+  -- "until then the message is redelivered": the MESSAGE, as published – not what a failed attempt made of its copy
+  | .dirty .. => .error "redelivered(delivered-copy-differs-from-published-message)"
   | .settle st l inv ack =>
     if ack then
       if (List.range (widths.getD st 1)).all (fun j => m.accepted.contains (inv, j)) then .ok m
